@@ -33,7 +33,7 @@ def snapshot(arrays):
             for a in arrays]
 
 
-def build(M, column_scalars=False):
+def build(M, column_scalars=False, foreign_byte_order=False):
     """MeshFields plus the list of every numpy array handed to the library (column_scalars: scalar fields stored as (n, 1)
     arrays, as some writers hand them out, instead of (n,))"""
     from fieldcompare.mesh import Mesh, MeshFields, CellType
@@ -51,6 +51,9 @@ def build(M, column_scalars=False):
         pd[name] = G.to_numpy_rows(rows, dtype=np.int64 if isint else float)
         if column_scalars and pd[name].ndim == 1:
             pd[name] = pd[name].reshape(-1, 1)
+        if foreign_byte_order:
+            # data that came from a machine / file of the other endianness: same values, bytes stored the other way round
+            pd[name] = pd[name].astype(pd[name].dtype.newbyteorder("S"))
         arrays.append(pd[name])
     cd = {}
     for name, per in M["cf"].items():
@@ -89,9 +92,15 @@ def run_history(ctx, rng, idx):
         n_ = len(M["pts"])
         M = G.reorder_points(M, sorted(range(n_), key=lambda i: (M["pts"][i][0], -M["pts"][i][1] if M["dim"] > 1 else 0)))
     cols = rng.choice(["none", "none", "source", "reference"])     # one side stores its scalar fields as (n, 1) columns
-    a, arrs_a = build(M, column_scalars=cols == "source")
-    b, arrs_b = build(N, column_scalars=cols == "reference")
+    foreign = rng.choice(["none", "none", "none", "source", "reference"])   # one side's point fields in non-native byte order
+    a, arrs_a = build(M, column_scalars=cols == "source", foreign_byte_order=foreign == "source")
+    b, arrs_b = build(N, column_scalars=cols == "reference", foreign_byte_order=foreign == "reference")
     arrays = arrs_a + arrs_b
+    # tolerances set by the user on one of the meshes: part of the caller's data, like the arrays
+    user_tol = rng.random() < 0.3
+    if user_tol:
+        a.domain.set_tolerances(abs_tol=1e-6 * (1.0 + float(np.max(np.abs(a.domain.points)))), rel_tol=1e-6)
+    tolerances = lambda: [(float(x.domain.relative_tolerance), float(x.domain.absolute_tolerance)) for x in (a, b)]  # noqa: E731
     readonly = rng.random() < 0.5
     if readonly:
         # the caller's arrays are write-protected: an operation that tries to write into one of them is stopped by numpy
@@ -101,7 +110,8 @@ def run_history(ctx, rng, idx):
     ops = [rng.choice(OPS) for _ in range(rng.randint(2, 8))]
     canon = {"source": json.loads(json.dumps({k: v for k, v in M.items() if k != "_orph"}, default=str)),
              "reference": json.loads(json.dumps({k: v for k, v in N.items() if k != "_orph"}, default=str)), "ops": ops, "kind": kind,
-             "inputs_write_protected": readonly, "scalar_fields_as_columns": cols}
+             "inputs_write_protected": readonly, "scalar_fields_as_columns": cols, "point_fields_in_foreign_byte_order": foreign,
+             "user_tolerances_on_source_mesh": user_tol}
     work = os.path.join(str(ctx.workdir), f"h{idx}")
     os.makedirs(work)
     comparator = MeshFieldsComparator(a, b)
@@ -111,6 +121,7 @@ def run_history(ctx, rng, idx):
     try:
         for op in ops:
             before = snapshot(arrays)
+            tol_before = tolerances()
             listing_before = sorted(os.listdir(work))
             expect_new = []
             with warnings.catch_warnings():
@@ -171,6 +182,9 @@ def run_history(ctx, rng, idx):
                     elif op == "write":
                         expect_new = [] if os.path.exists(os.path.join(work, "out_a.vtu")) else ["out_a.vtu"]
                         write(sort(a), os.path.join(work, "out_a"))
+                        # ... and the data set as it is (the writer then works on the caller's own arrays, not on sorted copies)
+                        expect_new += [] if os.path.exists(os.path.join(work, "out_plain.vtu")) else ["out_plain.vtu"]
+                        write(a if rng.random() < 0.5 else b, os.path.join(work, "out_plain"))
                     elif op == "to_meshio":
                         m1 = meshio_utils.to_meshio(a)
                         m2 = meshio_utils.to_meshio(a)
@@ -295,6 +309,9 @@ def run_history(ctx, rng, idx):
                         ctx.violation("E4", f"operation {op} raised {type(e).__name__}: {e}", canon, executed=executed + [op])
             executed.append(op)
             after = snapshot(arrays)
+            if tolerances() != tol_before:
+                ctx.violation("E4", f"operation '{op}' changed the tolerances of a mesh it was given ({tol_before} -> {tolerances()})",
+                              canon, executed=executed, op=op)
             changed = [i for i, (x, y) in enumerate(zip(before, after)) if x != y]
             if changed:
                 ctx.violation("E4", f"operation '{op}' modified an array of the data sets it was given (array #{changed[0]} of {len(arrays)})",
